@@ -57,9 +57,14 @@ def cases(tier, rng):
         alive = list(range(npads))
         # every pad mentioned once at the start so that it exists
         steps.append(frame(raw(pads=[pad(p) for p in alive])))
+        late = 10
         for _ in range(10):
             if len(alive) > 1 and rng.random() < .15:
                 alive.remove(rng.choice(alive))
+                # a gamepad connected right afterwards takes over the entity slot that was just freed (same index,
+                # next generation): a context tied to the gamepad that went away must not adopt it
+                if rng.random() < .6:
+                    alive.append(late); late += 1
             ps = []
             hot = rng.choice(alive)          # at most one pad reports a non-zero value per axis
             for p in alive:
@@ -75,7 +80,7 @@ STAGES = [dict(name='reads', mode='app', coq='Check.Readc', cases=cases, nontriv
                exhaustive={'thorough': True, 'quick': False},
                rule='real contexts with non-consuming actions and a probe modifier on every binding; input through the real Bevy input resources/events. '
                     'Keyboard key and mouse button under all 16 modifier masks x subsets of the eight modifier keys (all 256 in thorough, 96 sampled in quick) x bound key up/down x an unrelated key up/down; '
-                    'mouse motion and wheel under masks with quiet frames, three injection modes; unrestricted and single-gamepad contexts side by side with 1-3 gamepads appearing and disappearing, '
+                    'mouse motion and wheel under masks with quiet frames, three injection modes; unrestricted and single-gamepad contexts side by side with 1-3 gamepads disappearing and new ones connecting into the freed entity slot, '
                     'axis values in [-1,1], at most one gamepad non-zero per axis. non-trivial = some binding reads active; distinct = distinct scenario text')]
 CLAUSES = {1: 'a keyboard binding read differs from "key down and, for every required modifier, left or right variant down"',
            2: 'a mouse binding read differs from its specification (button / accumulated motion / wheel under the modifier mask)',
